@@ -85,6 +85,21 @@ func (c c20) Generate(seed uint64, tier string, idx int) *core.Plan {
 				m[len(m)/2] ^= 0x02
 				add(m)
 			}
+			// the same name in another letter case, and with a byte that is not valid UTF-8
+			for i, ch := range n {
+				if ch >= 'a' && ch <= 'z' {
+					m = append([]byte(nil), n...)
+					m[i] ^= 0x20
+					add(m)
+					break
+				}
+			}
+			m = append([]byte(nil), n...)
+			m[0] = 0xff
+			add(m)
+			m = append([]byte(nil), n...)
+			m[0] = 0xfe
+			add(m)
 		}
 		add(append(append([]byte(nil), n...), 'x'))
 		add(append(append([]byte(nil), n...), 0x01))
